@@ -118,6 +118,7 @@ def curated():
     a(make('var_two_al', [P('p', 'u32'), P('p', 'sz', 8), P('v', 'f32', 8), P('p', 'sz', 8), P('v', 'f32', 16)], 'all'))
     a(make('var_trk', [P('p', 'sz', 8), P('v', 'trk12'), P('p', 'trk9')], 'none'))
     a(make('var_mo', [P('p', 'u32'), P('v', 'mo12'), P('p', 'mo9')], 'all'))
+    a(make('var_trk_al', [P('p', 'u32'), P('v', 'trk12', 8), P('p', 'trk9'), P('p', 'u8')], 'noned'))
     a(make('var_bytes', [P('p', 'u8'), P('v', 'u8')], 'ae'))
     a(make('var_low_then_al', [P('p', 'u8'), P('v', 'u8'), P('p', 'u32', 4), P('p', 'u16')], 'none'))
     a(make('var_u16_al', [P('p', 'u16'), P('v', 'u16', 8), P('p', 'u8')], 'alld'))
